@@ -198,7 +198,29 @@ struct Outcome {
     rendered: Vec<String>,
 }
 
+/// run one execution; a wall-clock `Suspect` verdict is confirmed by three immediate re-runs of the same instance
 fn run_one(def: &ScenDef, seed: u64, plan: &[PlanEntry], a: &Args) -> Outcome {
+    let mut o = run_once(def, seed, plan, a);
+    if let Err(Fail::Suspect(msg)) = &o.res {
+        let msg = msg.clone();
+        let mut again = 0;
+        for _ in 0..3 {
+            let o2 = run_once(def, seed, plan, a);
+            match o2.res {
+                Err(Fail::Suspect(_)) => again += 1,
+                _ => break,
+            }
+        }
+        o.res = if again == 3 {
+            Err(Fail::Violation(format!("{} - and again in each of 3 immediate re-runs of the same instance", msg)))
+        } else {
+            Err(Fail::Inconclusive(format!("one-off lateness, not reproduced ({} of 3 re-runs were late too): {}", again, msg)))
+        };
+    }
+    o
+}
+
+fn run_once(def: &ScenDef, seed: u64, plan: &[PlanEntry], a: &Args) -> Outcome {
     hook::ARMED_CLAMP_US.store(u64::MAX, SeqCst);
     let mut x = Exec::new(seed, a.workers, a.thorough, !plan.is_empty() || a.noise != 0);
     hook::begin_exec(plan, a.noise);
@@ -274,7 +296,7 @@ fn main() {
     may::config().set_workers(a.workers);
     // harness actors format strings, log events and unwind (cancel / panic faults) on coroutine stacks:
     // the default 32 KiB is too tight for that (a stack overflow ends the process with exit(1))
-    may::config().set_stack_size(0x8000);
+    may::config().set_stack_size(0x10000);
     if let Some(c) = def.pool_cap {
         may::config().set_pool_capacity(c);
     }
